@@ -44,7 +44,8 @@ TSettled == /\ Ev.ev = "settled"
             /\ UNCHANGED nbeh
 TOpen == /\ Ev.ev = "wsopen" /\ s' = SM!OnOpen(s, Ev.c) /\ Verdict("ok") /\ UNCHANGED nbeh
 TSentRaw == /\ Ev.ev = "sentraw" /\ s' = SM!OnSentRaw(s, Ev.c) /\ Verdict("ok") /\ UNCHANGED nbeh
-TOther == /\ Ev.ev \in {"restarted", "files", "wsfail", "puberr"}
+\* events of other tiers of the same driver (stream completion, scripted RTP, NACK hooks, WHIP, racing HTTP) carry nothing for this monitor
+TOther == /\ Ev.ev \notin {"New", "sent", "recv", "wsclosed", "closews", "dead", "startfail", "http", "End", "settled", "wsopen", "sentraw"}
           /\ s' = s /\ Verdict("ok") /\ UNCHANGED nbeh
 TSkip == skip /\ Ev.ev # "New" /\ UNCHANGED <<s, nbeh, nbad, skip>>
 
